@@ -191,6 +191,33 @@ harm("C02", "range_loop_as_index_loop", SS+"messagingmiddleware.go", """	for _, 
 		eons = append(eons, int64(keys.Eon))
 		identities = append(identities, keys.Keys[i].IdentityPreimage)
 	}""")
+harm("C17", "rename_rlp_elements", SS+"eventtrigger.go", "elements", "items", True)
+harm("C20", "rename_gossip_message", "rolling-shutter/keyper/eonpkhandler.go", """	msg, err := p2pmsg.NewSignedEonPublicKey(
+		pkh.config.InstanceID,
+		eonPubKey.PublicKey,
+		eonPubKey.ActivationBlock,
+		eonPubKey.KeyperConfigIndex,
+		eonPubKey.Eon,
+		pkh.config.Ethereum.PrivateKey.Key,
+	)
+	if err != nil {
+		return errors.Wrap(err, "error while signing EonPublicKey")
+	}
+
+	err = pkh.messaging.SendMessage(ctx, msg)""", """	signedKey, err := p2pmsg.NewSignedEonPublicKey(
+		pkh.config.InstanceID,
+		eonPubKey.PublicKey,
+		eonPubKey.ActivationBlock,
+		eonPubKey.KeyperConfigIndex,
+		eonPubKey.Eon,
+		pkh.config.Ethereum.PrivateKey.Key,
+	)
+	if err != nil {
+		return errors.Wrap(err, "error while signing EonPublicKey")
+	}
+
+	err = pkh.messaging.SendMessage(ctx, signedKey)""")
+harm("C04", "rename_unmarshalled_message", "rolling-shutter/p2p/messaging.go", "unmshl", "decoded", True)
 harm("C09", "rename_vote_histogram", "rolling-shutter/app/voting.go", "numVotes", "tally", True)
 
 def main():
